@@ -9,7 +9,7 @@ set_option linter.unusedSectionVars false
 set_option linter.unusedSimpArgs false
 set_option linter.unusedVariables false
 
-namespace GT
+namespace GT.Act
 open ND
 
 variable {K : Type} [Inhabited K]
@@ -336,4 +336,4 @@ theorem mp32 [Add K] [Mul K] [Zero K] (mode : Bcast) (a1 a2 : ND K) {o1 o2 O : L
     simp only [List.singleton_append]
     rw [this]
 
-end GT
+end GT.Act
